@@ -61,7 +61,9 @@ class DispatchMonitor:
         logref = world.current_log()
         n0 = len(logref)
         m = self.real(types, lines)
-        recs = [r for r in logref[n0:] if r[1] in ("WARNING", "ERROR", "CRITICAL")]
+        # a report = a record that a handler can render; a record whose message cannot be formatted
+        # reaches the user as a logging error, not as a report of the line
+        recs = [r for r in logref[n0:] if not r[2].startswith(world.UNFORMATTABLE)]
         _tls.inside = True
         try:
             out = sum(len(m[t]) for t in types_l)
